@@ -137,6 +137,11 @@ pub fn generate(g: &mut Gen, thorough: bool) {
         }
         case(g, "default", def, "I", "01", "23", &inv, &icl, "aspects-inv", true);
     }
+    // beyond the disc of laea, in the polar aspects as in the others: NaN, not counted
+    for (def, x_0, y_0) in [("laea lat_0=90 lon_0=10 x_0=2000000 y_0=2000000", 2.0e6, 2.0e6), ("laea lat_0=-90 x_0=500 y_0=-500 ellps=intl", 500.0, -500.0), ("laea lat_0=90", 0.0, 0.0), ("laea lat_0=52 lon_0=10", 0.0, 0.0), ("laea lat_0=0 lon_0=-70", 0.0, 0.0)] {
+        let inv = vec![[x_0 + 1.0e6, y_0 - 2.0e6, 3.0, 2001.0], [x_0 + 2.0e7, y_0, 7.0, 2001.0], [x_0, y_0 - 1.5e7, 0.0, 0.0], [x_0 + 1.3e7, y_0 + 1.3e7, 0.0, 0.0], [x_0 - 5.0e5, y_0 + 1.0e6, 0.0, 0.0], [x_0 - 1.0e9, y_0, 0.0, 0.0]];
+        case(g, "default", def, "I", "01", "23", &inv, "ioooio", "laea-beyond-the-disc", true);
+    }
     // the apex of a cone (the pole the cone points to) is a point like any other: transformed, counted - once
     for (def, x_0, y_0) in [("lcc lat_1=57 lat_0=90 lon_0=12", 0.0, 0.0), ("lcc lat_1=-40 lat_2=-50 lat_0=-90 x_0=1000 y_0=-2000 ellps=intl", 1000.0, -2000.0), ("lcc lat_1=33 lat_2=45 lat_0=90 k_0=0.9996 x_0=500000", 500000.0, 0.0)] {
         let inv = vec![[x_0, y_0, 7.0, 2001.0], [x_0 + 1000.0, y_0 - 5.0e6 * (if def.contains("lat_0=-90") { -1.0 } else { 1.0 }), 0.0, 0.0], [x_0, y_0, 0.0, 0.0]];
